@@ -228,6 +228,23 @@ def run(tier, seed):
                     ofail.append({"config": text, "events": g.events_json(evs), "auditor": m["name"], "markers": ",".join(mk) or "-",
                                   "oracle": "FAIL an `audits throughout` auditor has one period spanning the play and gets its end-of-period judgement; markers: %s" % (",".join(mk) or "none"),
                                   "shape": "throughout-never-opened", "open_at_end": False})
+                # a condition over the mood alone: its periods are the maximal stretches of the play in which the mood
+                # satisfies it — as many periods as such stretches, none invented at the end of the play
+                c_ = m["cond"]
+                if (isinstance(c_, tuple) and len(c_) == 4 and c_[0] == "bin" and c_[1] in ("eq", "ne") and c_[2] == g.var("mood")
+                        and isinstance(c_[3], tuple) and c_[3][0] == "str"):
+                    moods = ["clear"]
+                    for e_ in evs:
+                        if e_[0] == "mood" and e_[2] != moods[-1]:
+                            moods.append(e_[2])
+                    truth = [(mo_ == c_[3][1]) == (c_[1] == "eq") for mo_ in moods]
+                    want = sum(1 for i_, t_ in enumerate(truth) if t_ and (i_ == 0 or not truth[i_ - 1]))
+                    rep.count("mood-conditioned auditors: periods counted")
+                    if mk.count("S") != want or mk.count("E") != want:
+                        ofail.append({"config": text, "events": g.events_json(evs), "auditor": m["name"], "markers": ",".join(mk),
+                                      "oracle": "FAIL the mood satisfies the condition during %d stretch(es) of the play (moods: %s): %d period(s) expected, %d started, %d closed"
+                                                % (want, " → ".join(moods), want, mk.count("S"), mk.count("E")),
+                                      "shape": "periods-are-the-stretches-of-the-condition", "open_at_end": False})
                 o = model.ask("C02 oracle %s %s" % (hexs(m["expect"][0]) if m["expect"] else "none", ",".join(mk) or "-"))
                 if o != "ok":
                     ofail.append({"config": text, "events": g.events_json(evs), "auditor": m["name"], "markers": ",".join(mk),
